@@ -32,6 +32,11 @@ backup call.
 
 The user-supplied functions of the configuration are fixed, injective-enough test functions
 (`strategyValue` … below); each of their invocations is an event (`callback`).
+
+Outside the machine, as pure functions of a delivered result: what the caller sees of it through
+`FallbackError`'s own API (accessors, `map`, `clone`: `postRun`), and a second fallback layer stacked
+on top (`upperFinish` = the decision function once more, on the lower layer's result; `stackLog` = the
+log of the stack as a function of this machine's log).
 -/
 namespace TR.Fallback
 
@@ -331,6 +336,171 @@ def stepS (cfg : Cfg) (s : State) (op : Op) : State :=
 def init : State := {}
 def run (cfg : Cfg) (ops : List Op) : State := ops.foldl (stepS cfg) init
 
+/-! ## the caller's side of the result: `FallbackError`'s own API (error.rs)
+
+What the layer hands to its caller is a `Result<Resp, FallbackError<E>>`; the caller looks at the
+error through the crate's own accessors, converts its payload with `FallbackError::map` (the usual
+`map_err(|e| e.map(AppErr::from))` glue of a stack with an application error type) and may clone it.
+None of this may change which variant the layer produced, and the payload changes by exactly the
+function given to `map`. -/
+
+/-- `FallbackError::is_inner` (on a success there is no `FallbackError` to ask: `false`) -/
+def Outcome.isInner : Outcome → Bool
+  | .inner _ => true
+  | _ => false
+
+/-- `FallbackError::is_fallback_failed` -/
+def Outcome.isFailed : Outcome → Bool
+  | .failed _ => true
+  | _ => false
+
+/-- `FallbackError::inner` / `FallbackError::into_inner`: the payload, whatever the variant -/
+def Outcome.payload : Outcome → Option IErr
+  | .ok _ => none
+  | .inner e => some e
+  | .failed e => some e
+
+/-- `result.map_err(|e| e.map(f))`: the variant stays, the payload goes through `f` -/
+def Outcome.mapErr (f : IErr → IErr) : Outcome → Outcome
+  | .ok r => .ok r
+  | .inner e => .inner (f e)
+  | .failed e => .failed (f e)
+
+/-- `result.map_err(|e| e.clone())`: a clone is equal to the original -/
+def Outcome.cloneErr (o : Outcome) : Outcome := o
+
+/-- the caller's payload conversion (`AppErr::from` in the harness): kind + 100 -/
+def appErr (e : IErr) : IErr := ⟨e.kind + 100, e.v⟩
+
+/-- one step of what a caller does with an error result before looking at it (`post=` on `arrive`:
+`c` clone, `v` view through the accessors, `m` map the payload) -/
+inductive PostStep
+  | clone
+  | view
+  | map
+deriving DecidableEq, Repr, Inhabited
+
+def postStep : PostStep → Outcome → Outcome
+  | .clone, o => o.cloneErr
+  | .view, o => o
+  | .map, o => o.mapErr appErr
+
+/-- what the four accessors report: `is_inner()`, `is_fallback_failed()`, `inner()`, `into_inner()` -/
+structure View where
+  isInner  : Bool
+  isFailed : Bool
+  ref      : IErr
+  into     : IErr
+deriving DecidableEq, Repr, Inhabited
+
+/-- a success carries no `FallbackError`: nothing to look at -/
+def viewOf (o : Outcome) : List View :=
+  match o.payload with
+  | some e => [⟨o.isInner, o.isFailed, e, e⟩]
+  | none => []
+
+/-- the caller's post-processing: the views taken on the way and the result as finally observed -/
+def postRun : List PostStep → Outcome → List View × Outcome
+  | [], o => ([], o)
+  | st :: tl, o =>
+      ((if st = .view then viewOf (postStep st o) else []) ++ (postRun tl (postStep st o)).1,
+       (postRun tl (postStep st o)).2)
+
+/-- number of `map` steps -/
+def mapCount (steps : List PostStep) : Nat := steps.countP (· = .map)
+
+/-- `f` applied `n` times -/
+def iter (f : IErr → IErr) : Nat → IErr → IErr
+  | 0, e => e
+  | n + 1, e => iter f n (f e)
+
+/-! ## two fallback layers stacked: a second instance of the decision function on top
+
+The upper layer wraps the lower one, so its inner error type is the lower layer's
+`FallbackError<IErr>`. Its test functions are the same as the lower layer's (bit-mask predicate,
+`val`/`val+n`, `from_error`, `from_request_error`, `kind+10` transformation) read through an injective
+encoding of that error into an `IErr`: `Inner(e)` has kind `2·e.kind`, `FallbackFailed(e)` kind
+`2·e.kind+1` — a predicate mask therefore addresses (variant, kind), a transformed error keeps its
+variant, and every function sees which variant it was handed. The upper layer's own result is
+rendered through the same encoding. (The upper layer never uses the backup-service strategy here:
+its decision is taken in the poll in which the lower layer's future resolves.) -/
+
+/-- the lower layer's result as the upper layer's inner result (`Result<Resp, FallbackError<IErr>>`) -/
+def Outcome.asInner : Outcome → IRes
+  | .ok r => .ok r
+  | .inner e => .err ⟨2 * e.kind, e.v⟩
+  | .failed e => .err ⟨2 * e.kind + 1, e.v⟩
+
+/-- the upper layer's decision on the lower layer's result: callbacks made, result of the stack.
+`n` = earlier invocations of the upper layer's value function -/
+def upperFinish (u : Cfg) (rq : Request) (n : Nat) (o : Outcome) : List Callback × Outcome :=
+  match afterInner u rq n o.asInner with
+  | .finish cbs o' => (cbs, o')
+  | .backup cbs => (cbs, .inner ⟨0, 0⟩)     -- upper strategy = backup service: not built by the harness
+
+/-- `poll_ready` of the upper layer: forwards, wrapping the lower layer's readiness error once more -/
+def upperReady (o : Outcome) : Outcome :=
+  match o.asInner with
+  | .ok r => .ok r
+  | .err e => .inner e
+
+/-- both layers as one pure reference function: the lower instance's `resolve`, then the upper
+instance's decision on its outcome -/
+def stackResolve (l u : Cfg) (rq : Request) (nl nu : Nat) (ri rb : IRes) :
+    List Callback × Bool × List Callback × Outcome :=
+  ((resolve l rq nl ri rb).1, (resolve l rq nl ri rb).2.1,
+   (upperFinish u rq nu (resolve l rq nl ri rb).2.2).1, (upperFinish u rq nu (resolve l rq nl ri rb).2.2).2)
+
+/-- events of the stack: those of the lower instance, and the upper layer's callbacks -/
+inductive SEv
+  | low (e : FEv)
+  | up (c : Nat) (cb : Callback)
+deriving DecidableEq, Repr, Inhabited
+
+def isValueFnCb : Callback → Bool
+  | .valueFn _ => true
+  | _ => false
+
+/-- The log of the stack as a function of the lower instance's log. The lower layer's future
+resolving (`resp c o`, `result c o` — always logged together) is not seen by the caller of the stack:
+in the same poll the upper layer takes its decision on `o` (its callbacks are logged) and the caller
+sees the upper layer's result. A result for a request whose inner call was never made is a readiness
+failure: both `poll_ready`s forwarded it. `n` = invocations of the upper value function so far,
+`rqs` = the requests given to the inner calls so far. -/
+def liftLog (u : Cfg) : Nat → List (Nat × Request) → List FEv → List SEv
+  | _, _, [] => []
+  | n, rqs, .innerCall c k rq :: tl => .low (.innerCall c k rq) :: liftLog u n ((c, rq) :: rqs) tl
+  | n, rqs, .resp c o :: tl =>
+      match lookup rqs c with
+      | some _ => liftLog u n rqs tl
+      | none => .low (.resp c (upperReady o)) :: liftLog u n rqs tl
+  | n, rqs, .result c o :: tl =>
+      match lookup rqs c with
+      | some rq =>
+          (upperFinish u rq n o).1.map (.up c)
+            ++ .low (.resp c (upperFinish u rq n o).2) :: .low (.result c (upperFinish u rq n o).2)
+            :: liftLog u (n + (upperFinish u rq n o).1.countP isValueFnCb) rqs tl
+      | none => .low (.result c (upperReady o)) :: liftLog u n rqs tl
+  | n, rqs, e :: tl => .low e :: liftLog u n rqs tl
+
+/-- the accumulators of `liftLog` after a stretch of the lower instance's log -/
+def liftAcc (u : Cfg) : Nat → List (Nat × Request) → List FEv → Nat × List (Nat × Request)
+  | n, rqs, [] => (n, rqs)
+  | n, rqs, .innerCall c _ rq :: tl => liftAcc u n ((c, rq) :: rqs) tl
+  | n, rqs, .result c o :: tl =>
+      match lookup rqs c with
+      | some rq => liftAcc u (n + (upperFinish u rq n o).1.countP isValueFnCb) rqs tl
+      | none => liftAcc u n rqs tl
+  | n, rqs, _ :: tl => liftAcc u n rqs tl
+
+/-- the log the caller of the stack sees -/
+def stackLog (u : Cfg) (log : List FEv) : List SEv := liftLog u 0 [] log
+
+/-- the documented meaning of a shortcut constructor (`FallbackLayer::value(v)`, `::value_fn(f)`,
+`::from_error(f)`, `::from_request_error(f)`, `::service(s)`, `::exception(f)`, layer.rs:45-152):
+the builder with that strategy and nothing else — no predicate -/
+def shortcut (strat : Strategy) (val : Nat) : Cfg := { strat := strat, handle := none, val := val }
+
 /-! ## rendering and line protocol -/
 
 def b01 (b : Bool) : Nat := if b then 1 else 0
@@ -405,19 +575,90 @@ def refused (s : State) : Op → Bool
   | .drop c => !known s c
   | _ => false
 
+/-- `post=cvm…` on `arrive`: c clone, v view, m map (anything else is ignored) -/
+def parsePost (s : String) : List PostStep :=
+  s.toList.filterMap fun ch =>
+    if ch = 'c' then some .clone else if ch = 'v' then some .view else if ch = 'm' then some .map else none
+
+def View.render (c : Nat) (v : View) : String :=
+  s!"view {c} {b01 v.isInner} {b01 v.isFailed} {v.ref.kind} {v.ref.v} {v.into.kind} {v.into.v}"
+
+/-- what the caller logs for one event of the (stack's) log: the upper layer's test functions log
+their invocations with a `u` in front; a result goes through the caller's post-processing first -/
+def renderSEv (sx bx : Bool) (posts : List (Nat × List PostStep)) : SEv → List Ev
+  | .up _ cb => [.raw ("u" ++ cb.render)]
+  | .low (.resp c o) =>
+      ((postRun ((lookup posts c).getD []) o).1.map fun v => Ev.raw (v.render c))
+        ++ [(FEv.resp c (postRun ((lookup posts c).getD []) o).2).toEv sx bx]
+  | .low (.result c o) => [(FEv.result c (postRun ((lookup posts c).getD []) o).2).toEv sx bx]
+  | .low e => [e.toEv sx bx]
+
+/-- `probe strategy c= tag= kind= v=`: the caller builds the `FallbackStrategy` value of the header's
+strategy by hand (same test functions, value-function counter 0, a backup closure that echoes the
+request), CLONES it (lib.rs:207) and applies the clone to the sample request and error -/
+def probeStrategy (cfg : Cfg) (rq : Request) (e : IErr) : String :=
+  match cfg.strat with
+  | .value => s!"strategy value {(Outcome.ok (strategyValue cfg)).detail}"
+  | .valueFn => s!"strategy value_fn {(Outcome.ok (strategyValueFn cfg 0)).detail}"
+  | .fromError => s!"strategy from_error {(Outcome.ok (strategyFromError e)).detail}"
+  | .fromReqErr => s!"strategy from_request_error {(Outcome.ok (strategyFromReqErr rq e)).detail}"
+  | .service => s!"strategy service {(Outcome.ok ⟨rq.tag, rq.c, rq.tag⟩).detail}"
+  | .exception => s!"strategy exception {(Outcome.inner (strategyException e)).detail}"
+
+/-- state of the line-protocol machine: the lower instance's state, the upper layer's configuration
+(header `upper=<strategy> [uhandle=<mask>] [uval=<n>]`) and each caller's post-processing steps.
+Header keys `via=` / `uvia=` (builder, shortcut constructor, `Default` builder) and the `arrive` options
+`svc=<k>` (which of several services built from the one layer value, or from a clone of it) and
+`reuse=1` (the call is made on the long-lived handle itself) have no meaning for the model: the
+layer keeps nothing per service or per handle, the outcome is the same however it was built. -/
+structure MS where
+  sx : Bool
+  bx : Bool
+  cfg : Cfg
+  up : Option Cfg
+  posts : List (Nat × List PostStep) := []
+  s : State := init
+  /-- accumulators of `liftLog` over the log so far: the stack's log is produced stretch by stretch
+  (`TR.Fallback.liftLog_append`) -/
+  acc : Nat × List (Nat × Request) := (0, [])
+
+/-- what the caller logs for a new stretch of the lower instance's log -/
+def MS.observe (m : MS) (new : List FEv) : List Ev :=
+  ((match m.up with
+    | none => new.map SEv.low
+    | some u => liftLog u m.acc.1 m.acc.2 new).map (renderSEv m.sx m.bx m.posts)).flatten
+
+def parseUpper (kv : Kv) : Option Cfg :=
+  match kv.get "upper" with
+  | none => none
+  | some "service" => none
+  | some st => some { strat := parseStrategy st, handle := kv.optNat "uhandle", val := kv.nat "uval" 0 }
+
 def machine : Machine where
-  σ := (Bool × Bool) × Cfg × State
+  σ := MS
   init kv :=
     let cfg : Cfg := { strat := parseStrategy (kv.str "strategy" "value"), handle := kv.optNat "handle",
                        val := kv.nat "val" 0, ready := parseReady (kv.str "ready" ""),
                        bready := parseReady (kv.str "bready" "") }
-    (((kv.get "ready").isSome, (kv.get "bready").isSome), cfg, init)
-  step := fun (x, cfg, s) ws =>
+    { sx := (kv.get "ready").isSome, bx := (kv.get "bready").isSome, cfg := cfg, up := parseUpper kv }
+  step := fun m ws =>
+    match ws with
+    | "probe" :: "strategy" :: rest =>
+        let kv := parseKv rest
+        (m, [.probe (probeStrategy m.cfg ⟨kv.nat "c" 0, kv.nat "tag" 0⟩ ⟨kv.nat "kind" 0, kv.nat "v" 0⟩)])
+    | _ =>
     match parseOp ws with
     | some op =>
-        let s' := stepS cfg s op
-        ((x, cfg, s'), (s'.log.drop s.log.length).map (FEv.toEv x.1 x.2) ++ (if refused s op then [.raw "noop"] else []))
-    | none => ((x, cfg, s), [])
-  now := fun (_, _, s) => s.now
+        let posts := match op, ws with
+          | .arrive c _ _, _ :: _ :: rest =>
+              if m.s.svcGone || known m.s c then m.posts else (c, parsePost ((parseKv rest).str "post" "")) :: m.posts
+          | _, _ => m.posts
+        let s' := stepS m.cfg m.s op
+        let new := s'.log.drop m.s.log.length
+        let m1 := { m with posts := posts }
+        ({ m1 with s := s', acc := match m.up with | some u => liftAcc u m.acc.1 m.acc.2 new | none => m.acc },
+         m1.observe new ++ (if refused m.s op then [.raw "noop"] else []))
+    | none => (m, [])
+  now := fun m => m.s.now
 
 end TR.Fallback
